@@ -4,6 +4,7 @@ import (
 	"bufio"
 	"encoding/json"
 	"fmt"
+	"github.com/iancoleman/strcase"
 	"os"
 	"os/exec"
 	"path/filepath"
@@ -91,6 +92,19 @@ func BuildRouterProject(c *orch.Ctx, l *lab.Lab, bin string, p *synth.Project, o
 	engines := opts.Engines
 	if len(engines) == 0 {
 		engines = synth.Engines
+	}
+	if opts.EnumValid {
+		// the experimental generated validators are only registered with this option: let model fields of a
+		// string enum type use them (tag <snake_case(enum)>_enum)
+		for si := range p.Structs {
+			for fi := range p.Structs[si].Fields {
+				f := &p.Structs[si].Fields[fi]
+				if e := p.Enum(f.Type.Pkg, f.Type.Name); f.Type.K == "named" && e != nil && e.Base == "string" && f.Validate == "" && !f.Embedded {
+					f.Validate = strcase.ToSnake(e.Name) + "_enum"
+					p.SetFeature("generated-enum-validator-tag")
+				}
+			}
+		}
 	}
 	rd := p.Render(synth.RenderOpts{Body: synth.ProbeBody})
 	rd.Files["vprobe/vprobe.go"] = synth.VProbeSource
